@@ -145,8 +145,8 @@ claim("C14",
       "pr::Expr::write's use of needs_parenthesis and the non-binary arms' option handling are read off the text, not verified; chumsky's pratt() "
       "semantics assumed; regex / HashSet / Formatter / String operations are shims by contract.")
 
-prop("C05", ["select_shape", "star_exclude", "limit_select", "star_cols", "sstring_cols", "lineage_except", "sort_infer", "select_cols", "positional_map", "dialect_flags", "rq_shape", "pipeline_types", "anchor_names", "literal_rows"],
-     select={"anchor_names": lambda n: n.split(".", 1)[1] in ("LN1", "LN1i", "LN2", "EN1", "EN3") or n.endswith(".safety"), "pipeline_types": lambda n: n.split(".", 1)[1] in ("GL1", "GL2", "group_lineage.safety"), "rq_shape": lambda n: n.split(".", 1)[1] in ("AP1", "AP2", "append_single_arm.safety"), "dialect_flags": lambda n: n.rsplit(".", 1)[1] in ("column_exclude", "supports_zero_columns"), "positional_map": lambda n: n.split(".", 1)[1] in ("PM1", "PM3", "PM4", "PM5", "PM8", "activate_mapping.safety", "apply_active_mapping.safety", "select_arm.safety", "compute_arm.safety"), "sort_infer": lambda n: n.split(".", 1)[1] in ("SC1", "SC2", "SC3", "carry_sort_columns.safety", "carry_sort_columns.loop_exit")},
+prop("C05", ["select_shape", "star_exclude", "limit_select", "star_cols", "sstring_cols", "lineage_except", "sort_infer", "select_cols", "positional_map", "dialect_flags", "rq_shape", "pipeline_types", "anchor_names", "literal_rows", "json_lits"],
+     select={"json_lits": lambda n: n.split(".", 1)[1] in ("JC1", "parse_json2.safety"), "anchor_names": lambda n: n.split(".", 1)[1] in ("LN1", "LN1i", "LN2", "EN1", "EN3") or n.endswith(".safety"), "pipeline_types": lambda n: n.split(".", 1)[1] in ("GL1", "GL2", "group_lineage.safety"), "rq_shape": lambda n: n.split(".", 1)[1] in ("AP1", "AP2", "append_single_arm.safety"), "dialect_flags": lambda n: n.rsplit(".", 1)[1] in ("column_exclude", "supports_zero_columns"), "positional_map": lambda n: n.split(".", 1)[1] in ("PM1", "PM3", "PM4", "PM5", "PM8", "activate_mapping.safety", "apply_active_mapping.safety", "select_arm.safety", "compute_arm.safety"), "sort_infer": lambda n: n.split(".", 1)[1] in ("SC1", "SC2", "SC3", "carry_sort_columns.safety", "carry_sort_columns.loop_exit")},
      not_covered="the rest of translate_wildcards (bookkeeping of the current star and of the exclusion sets), split_off_back / anchor_split behind extract_atomic, agreement "
                  "with the resolver's frame for every program, run-time expansion of `*`")
 claim("C05",
